@@ -10,7 +10,7 @@ from sklearn.metrics import mean_absolute_error
 PROPERTY = "C05"
 RULE = ("Hypothesis draws q in (0,1) (0.5 forced in a fraction of cases), a full-rank design (dyadic grid + small continuous jitter), "
         "n 8..60, d 1..3, a linear signal plus continuous noise of three amplitudes, fit_intercept, positive, max_iter in "
-        "{10, 50, 300}, optional integer weights 1..4; in a third of the cases the hyper-parameters are NumPy scalars (numpy.bool_, numpy.int64, numpy.float64). Oracles: (optimal) exact LP optimum of the (weighted) pinball loss "
+        "{10, 50, 300}, optional integer weights 1..4; targets in units of 1, 1e-5, 1e-3 or 1e3 with delta scaled alike (a non-default delta); in a third of the cases the hyper-parameters are NumPy scalars (numpy.bool_, numpy.int64, numpy.float64). Oracles: (optimal) exact LP optimum of the (weighted) pinball loss "
         "(scipy HiGHS; same sign constraints when positive=True) - the fit's loss may exceed it by a calibrated factor per "
         "max_iter - and the loss at q of the model fitted for 1-q is not smaller; (fraction) |#{y<f}/n - q| <= (d+3)/n; (score) "
         "score == 2*mean pinball_q exactly (MAE at q=0.5) and is monotone in the true pinball loss under perturbations of the model; "
@@ -55,7 +55,13 @@ def _data(case):
     for i, v in case.get("outliers", []):
         y[i % n] = v                    # a few sentinel / recording-error targets far away from the rest
     w = None if case["w"] is None else np.array(case["w"][:n], dtype=np.float64)
+    # targets in other units: y * s with delta * s is the same problem (the IRLS floor `delta` is an absolute residual size)
+    y = y * float(case.get("yscale", 1.0))
     return X, y, w
+
+
+def _delta(case):
+    return 1e-4 * float(case.get("yscale", 1.0))
 
 
 def _facts(case):
@@ -71,23 +77,27 @@ def check_fit(case):
     if np.linalg.matrix_rank(np.hstack([X, np.ones((n, 1))])) < d + 1:
         return Outcome(["rank-deficient-skipped"], False)
     X0, y0, w0 = X.copy(), y.copy(), None if w is None else w.copy()
-    m = _Q(**np_scalars(dict(quantile=q, max_iter=case["max_iter"], fit_intercept=case["fit_intercept"], positive=case["positive"]), case.get("np_params", False)))
+    m = _Q(delta=_delta(case), **np_scalars(dict(quantile=q, max_iter=case["max_iter"], fit_intercept=case["fit_intercept"], positive=case["positive"]), case.get("np_params", False)))
     facts["np_params"] = bool(case.get("np_params", False))
+    facts["yscale"] = case.get("yscale", 1.0)
     r = m.fit(X, y, sample_weight=w)
     require(r is m, "fit:not-self", "", facts)
     require(np.array_equal(X, X0) and np.array_equal(y, y0) and (w is None or np.array_equal(w, w0)), "input-modified", "", facts)
     f = m.predict(X)
     L = pinball(y, f, q, w)
-    Ls = lp_optimum(X, y, q, np.ones(n) if w is None else w, case["fit_intercept"], case["positive"])
+    # the LP is solved in the units of the generator (HiGHS works with absolute feasibility tolerances of 1e-7, which are not small
+    # next to targets of 1e-5); the pinball loss is positively homogeneous, so the optimum scales with the unit
+    ys = float(case.get("yscale", 1.0))
+    Ls = ys * lp_optimum(X, y / ys, q, np.ones(n) if w is None else w, case["fit_intercept"], case["positive"])
     # absolute slack: the IRLS weights are capped at 1/delta, residuals cannot be resolved below delta (default 1e-4) per row
-    scale = 1e-9 * (1.0 + float(np.abs(y).sum())) + n * 1e-4
+    scale = 1e-9 * (_delta(case) * 1e4 + float(np.abs(y).sum())) + n * _delta(case)
     eps = EPS[case["max_iter"]]
     require(L <= Ls * (1 + eps) + scale, "fit:not-optimal",
             "pinball loss of the fit %.6g, LP optimum %.6g (ratio %.3f, allowed %.3f) for q=%r" % (L, Ls, L / max(Ls, 1e-300), 1 + eps, q), facts)
     labels = []
     # the model fitted for 1-q must not beat it at q
     if abs(q - 0.5) >= 0.15:
-        m2 = _Q(quantile=1 - q, max_iter=case["max_iter"], fit_intercept=case["fit_intercept"], positive=case["positive"]).fit(X, y, sample_weight=w)
+        m2 = _Q(quantile=1 - q, max_iter=case["max_iter"], fit_intercept=case["fit_intercept"], positive=case["positive"], delta=_delta(case)).fit(X, y, sample_weight=w)
         L2 = pinball(y, m2.predict(X), q, w)
         require(L <= L2 * (1 + eps) + scale, "fit:worse-than-1-q-model",
                 "loss at q=%r: %.6g for the q model, %.6g for the 1-q model" % (q, L, L2), facts)
@@ -106,6 +116,7 @@ def check_fit(case):
                "intercept" if case["fit_intercept"] else "no-intercept"]
     nt = not (0.45 <= q <= 0.55) or w is not None or case["positive"] or not case["fit_intercept"]
     labels.append("numpy-scalar-params" if case.get("np_params") else "python-scalar-params")
+    labels.append("yscale=%g" % case.get("yscale", 1.0))
     return Outcome(labels, nt)
 
 
@@ -196,7 +207,8 @@ def _cases(draw, tier="quick", weighted=None, for_score=False):
                        for v in draw(st.lists(st.integers(-999983, 999983).filter(lambda v: v != 0), min_size=60, max_size=60, unique=True))], q=q,
                 fit_intercept=draw(st.sampled_from([True, True, True, False])), positive=draw(st.sampled_from([False, False, False, True])),
                 max_iter=draw(st.sampled_from([10, 50, 300])),
-                w=[draw(st.integers(1, 4)) for _ in range(60)] if has_w else None, np_params=draw(st.sampled_from([False, False, True])))
+                w=[draw(st.integers(1, 4)) for _ in range(60)] if has_w else None, np_params=draw(st.sampled_from([False, False, True])),
+                yscale=draw(st.sampled_from([1.0, 1.0, 1.0, 1e-5, 1e-3, 1e3])))
     if not for_score and not weighted and draw(st.integers(0, 3)) == 0:
         case["outliers"] = [[draw(st.integers(0, 59)), draw(st.sampled_from([1e6, -1e6, 1e4]))] for _ in range(draw(st.integers(1, 3)))]
     if for_score:
